@@ -52,8 +52,17 @@ def run_cases(lib, EoN, sim, cases, modes, oracle=None, nontrivial=None, res=Non
             if d:
                 res.mism.append((size, d, rp))
             if oracle:
-                for suffix, what in oracle(case, impl, m) or []:
-                    res.oracle_bad.append((size, suffix, what, rp))
+                oimpl, orp, om = impl, rp, m
+                if impl['status'] == 'OUT' and m['status'] != 'ERR':
+                    # the implementation wants more draws than the model's run consumed: let it run on
+                    # (1/2 is a valid answer to every kind of call) so that the oracle can judge its output
+                    from fractions import Fraction
+                    pad = list(draws) + [Fraction(1, 2)] * 60
+                    oimpl = lib.run_impl(EoN, sim, case, pad); orp = lib.case_json(case, pad)
+                    om = dict(m, draws=pad)
+                    res.stat('impl_ran_past_model')
+                for suffix, what in oracle(case, oimpl, om) or []:
+                    res.oracle_bad.append((size, suffix, what, orp))
             if nontrivial is None or nontrivial(case, m, impl):
                 res.nontrivial += 1
                 if len(res.samples) < 4 and res.n % sample_every == 1:
